@@ -14,7 +14,7 @@ import lbry.wallet  # noqa: F401  (import order)
 from lbry.wallet import Ledger, Database, Headers
 from lbry.wallet.bcd_data_stream import BCDataStream
 from lbry.wallet.script import (OutputScript, InputScript, Script, tokenize, push_data, DataToken, SmallIntegerToken)
-from lbry.wallet.transaction import Transaction, Output
+from lbry.wallet.transaction import Transaction, Output, Input
 from lbry.schema.purchase import Purchase
 
 import vlib
@@ -516,6 +516,12 @@ def monitor_generated(kind, name, plain, py, src):
         return f'{name}: generated script parses back as {back_t}'
     if not plain_equal(plain, back_v):
         return f'{name}: parsed values differ from the generating values'
+    try:      # the other direction: generating again from the parsed values reproduces the script
+        again = type(s)(template=s.template, values=dict(back_v)).source
+    except Exception as e:  # noqa
+        return f'{name}: generating again from the parsed values raised {err_class(e)}'
+    if again != src:
+        return f'{name}: generating again from the parsed values gives a different script'
     if kind == 'output':
         if klass == 'data' and flat['data'][:1] == b'P':
             klass = 'purchase'
@@ -594,7 +600,7 @@ def monitor_parse(kind, src, impl):
         if st == 'ambiguous':
             return 'two output templates have the shape of this script: ' + ', '.join(h[0] for h in info)
         if st == 'error':
-            return None if impl.get('error') == 'struct.error' else f'truncated length prefix, but got {impl}'
+            return None if impl.get('error') == 'ValueError' else f'partial PUSHDATA2/4 length: expected ValueError, got {impl}'
         if st == 'empty':
             return None if impl.get('template') == 'no_script' else f'empty script parsed as {impl}'
         if st == 'nomatch':
@@ -617,12 +623,14 @@ def monitor_parse(kind, src, impl):
     if kind == 'input':
         st, info = ref_match_input(src)
         if st == 'error':
-            return None if impl.get('error') == 'struct.error' else f'truncated length prefix, but got {impl}'
+            return None if impl.get('error') == 'ValueError' else f'partial PUSHDATA2/4 length: expected ValueError, got {impl}'
         if st == 'empty':
             return None if impl.get('template') == 'no_script' else f'empty script parsed as {impl}'
         if st == 'nomatch':
             return None if impl.get('error') == 'ValueError' else f'no input template has this shape, got {impl.get("template", impl)}'
         name, vals = info
+        if name == 'script_hash+multi_sig':
+            return None      # multi-signature redeem scripts are outside the property; the model comparison still runs
         if impl.get('template') != name:
             return f'opcodes have the shape of {name} but the script parsed as {impl.get("template", impl)}'
         for k, v in vals.items():
@@ -681,6 +689,54 @@ def check_tokenize(run, model, case):
                       signature={'op': 'tokenize', 'script': src.hex() if len(src) < 400 else case['script']})
         return
     run.compare('C15.tokenize', case, impl, model.call('tokenize', s=src.hex()))
+
+
+def check_tx(run, model, case):
+    """the wire path: outputs built from templates, serialised in a transaction, deserialised again
+    (Output.deserialize_from -> OutputScript(bytes), parsed lazily) keep template and values; the
+    signature-less input written by Input.spend reads back as pubkey_hash"""
+    run.case(case, nontrivial=True)
+    run.count('tx:outputs=%d' % len(case['outputs']))
+    outs, want = [], []
+    for g in case['outputs']:
+        py, plain, _ = py_values('output', g['values'])
+        sc = OutputScript(template=OUT_T[g['template']], values=py)
+        outs.append(Output(1000, sc))
+        want.append((g['template'], plain, sc.source))
+    prev = Transaction()
+    prev.add_outputs([Output.pay_pubkey_hash(5000, b'\x07' * 20)])
+    tx = Transaction()
+    tx.add_inputs([Input.spend(prev.outputs[0])])
+    tx.add_outputs(outs)
+    back = Transaction(tx.raw)
+    bad = None
+    if len(back.outputs) != len(outs):
+        bad = 'output count changed on the wire'
+    for (name, plain, src), o in zip(want, back.outputs):
+        if bad:
+            break
+        if o.script.source != src:
+            bad = f'{name}: script bytes changed on the wire'
+            break
+        try:
+            if o.script.template.name != name or not plain_equal(plain, o.script.values):
+                bad = f'{name}: after the wire round trip the output parses as {o.script.template.name} with other values'
+        except Exception as e:  # noqa
+            bad = f'{name}: output no longer parses after the wire round trip ({err_class(e)})'
+    isc = back.inputs[0].script
+    if not bad:
+        try:
+            if isc.template.name != 'pubkey_hash' or isc.values != {'signature': Input.NULL_SIGNATURE, 'pubkey': Input.NULL_PUBLIC_KEY}:
+                bad = f'the placeholder input script reads back as {isc.template.name}'
+        except Exception as e:  # noqa
+            bad = f'the placeholder input script does not parse ({err_class(e)})'
+    if bad:
+        run.violation(case, bad, signature={'op': 'tx', 'outputs': case['outputs']})
+        return
+    for (_, _, src), o in zip(want, back.outputs):
+        ip = impl_parse_script(o.script, True)
+        run.compare('C15.tx-output', case, ip, align_row(ip, model_parse(model, 'output', src)))
+    run.compare('C15.tx-input', case, impl_parse_script(isc, False), model_parse(model, 'input', isc.source))
 
 
 def check_purchase_row(run, model, case):
@@ -835,8 +891,12 @@ def gen_parse_case(rng):
         return {'op': 'parse', 'kind': rng.choice(['output', 'input', 'input', 'sub_multi_sig']),
                 'script': {'hex': b''.join(parts).hex()}}
     if c < 0.38:     # multisig redeem scripts (outside the property's claim; exercised for the model's PUSH_MANY path)
-        g = {'kind': 'input', 'template': 'script_hash+multi_sig', 'values': gen_multisig(rng)}
+        vals = gen_multisig(rng)
         edits = [rand_edit(rng, 150)] if rng.random() < 0.5 else []
+        if rng.random() < 0.4:   # the inner redeem script, offered as the subscript it is
+            g = {'kind': 'input', 'template': 'multi_sig', 'values': vals['script']['sub']['values']}
+            return {'op': 'parse', 'kind': 'sub_multi_sig', 'script': {'gen': g, 'edits': edits}}
+        g = {'kind': 'input', 'template': 'script_hash+multi_sig', 'values': vals}
         return {'op': 'parse', 'kind': 'input', 'script': {'gen': g, 'edits': edits}}
     kind, name = rng.choice(ALL_GEN)
     g = {'kind': kind, 'template': name, 'values': gen_values(rng, kind, name)}
@@ -885,6 +945,8 @@ def dispatch(run, model, case):
         check_generate(run, model, case)
     elif op == 'parse':
         check_parse(run, model, case)
+    elif op == 'tx':
+        check_tx(run, model, case)
     elif op == 'purchase_row':
         check_purchase_row(run, model, case)
     else:
@@ -954,6 +1016,18 @@ def main(run):
             check_parse(run, model, {'op': 'parse', 'kind': kind, 'script': {'hex': h}})
     for _ in range(vlib.scaled(run.tier, 3500, 120000)):
         check_parse(run, model, gen_parse_case(rng))
+
+    # ---- through the transaction wire format ----
+    for _ in range(vlib.scaled(run.tier, 60, 1500)):
+        outs = []
+        for _ in range(rng.randrange(1, 5)):
+            name = rng.choice(OUT_SHAPES)[0]
+            vals = gen_values(rng, 'output', name)
+            for v in vals.values():          # keep wire cases small
+                if 'len' in v['b'] and v['b']['len'] > 3000:
+                    v['b']['len'] = rng.choice([253, 254, 255, 256, 300])
+            outs.append({'template': name, 'values': vals})
+        check_tx(run, model, {'op': 'tx', 'outputs': outs})
 
     # ---- purchase typing at the row level ----
     good = Purchase('ab' * 20).to_bytes()
